@@ -83,7 +83,7 @@ class RefServer:
             self.sock.inbox.feed(data)
 
     def send_packet(self, pid, body):
-        self.emit(rc.frame(rc.varint(pid) + body, self.compress_out))
+        self.emit(rc.frame(rc.varint(pid) + body, self.compress_out, ge=True))     # the vanilla server's rule
 
     def close(self):
         self.sock.inbox.eof = True
